@@ -76,6 +76,14 @@ func (r *schemaRenderer) body(i int) []string {
 	switch t.Kind[i-1] {
 	case "const":
 		parts = append(parts, `"const": `+jstr(t.Lit[i-1]))
+	case "jsconst":
+		// a typed source: the result of a script ("int:7" -> 7, "str:x" -> 'x', ...)
+		lit := t.Lit[i-1]
+		script := lit[strings.Index(lit, ":")+1:]
+		if strings.HasPrefix(lit, "str:") {
+			script = "'" + script + "'"
+		}
+		parts = append(parts, `"custom_func": {"name": "javascript", "args": [{"const": `+jstr(script)+`}]}`)
 	case "object":
 		var fs []string
 		for k, c := range t.kids(i) {
